@@ -36,6 +36,7 @@ def _ops(cfg: HubConfig, info) -> List[Tuple[str, List[List]]]:
             if s in cfg.churn:
                 out.append((f"disconnect({s})", a.disconnect(s)))
                 out.append((f"close({s})", a.close(s)))
+                out.append((f"reset({s})", a.reset(s)))
     for s in cfg.loggers:
         if s not in present:
             if s in cfg.churn:
@@ -52,7 +53,7 @@ def _ops(cfg: HubConfig, info) -> List[Tuple[str, List[List]]]:
 
 
 def build(tier="quick", tc=False, flip=False, subscribers="AB", loggers="G", pairs="publish", nonwritable=1,
-          props=("C01",), sizes=(0, 4), churn="", ctl="", pre="", types=(T1, T2, ALL)) -> HubConfig:
+          props=("C01",), sizes=(0, 4), churn="", ctl="", pre="", types=(T1, T2, ALL), presub=False) -> HubConfig:
     slots = list(subscribers) + list(loggers) + ["M"]
     hid_vals = list(range(1, len(slots) + 1))
     if flip:
@@ -66,7 +67,9 @@ def build(tier="quick", tc=False, flip=False, subscribers="AB", loggers="G", pai
     init += [["settle"]]
     for s in pre:
         init += (a.connect_v1(s) if s == "B" else a.connect_v2(s, name=s.encode())) + [["settle"]]
-    cfg = HubConfig(name=f"routing-{tier}-tc{int(tc)}-flip{int(flip)}-{subscribers}-{loggers}-{pairs}-{nonwritable}-{churn}-{ctl}-{pre}-{len(types)}-{max(sizes)}",
+        if presub:  # everybody subscribed to T1 from the start (A also to ALL-less individual set, C via ALL)
+            init += a.ctl(s, P.MT_SUBSCRIBE, ALL if s == "C" else T1) + [["settle"]]
+    cfg = HubConfig(name=f"routing-{int(presub)}-{tier}-tc{int(tc)}-flip{int(flip)}-{subscribers}-{loggers}-{pairs}-{nonwritable}-{churn}-{ctl}-{pre}-{len(types)}-{max(sizes)}",
                     tc=tc, ids=ids, hids=hids, init=init, ops=_ops, probes=True, sizes=tuple(sizes), pairs=pairs,
                     nonwritable=nonwritable, props=tuple(props))
     cfg.subscribers = list(subscribers)
@@ -93,6 +96,11 @@ def configs(tier: str, props) -> List[Any]:
             # connects / disconnects / closes interleaved with subscriptions; timecode header, reversed hash order
             builder(tier=tier, tc=True, flip=True, subscribers="AB", loggers="", churn="AB", ctl="AB", pairs="none",
                     nonwritable=1, props=props, types=(T1, ALL), sizes=(0, 4, 65535)),
+            # a subscriber closes / resets in the same round in which another client publishes (both service orders, both hash orders)
+            builder(tier=tier, subscribers="ABC", loggers="", pre="ABC", churn="AB", ctl="", pairs="publish", nonwritable=0, props=props,
+                    types=(T1,), presub=True, flip=False),
+            builder(tier=tier, subscribers="ABC", loggers="", pre="ABC", churn="AB", ctl="", pairs="publish", nonwritable=0, props=props,
+                    types=(T1,), presub=True, flip=True),
         ]
     return [
         builder(tier=tier, subscribers="AB", loggers="G", pre="ABG", ctl="ABG", pairs="all", nonwritable=3, props=props,
